@@ -551,27 +551,74 @@ theorem candidate_toList {doc : Doc} {s : Schema} (h : AcceptedFacts doc s) (n :
   | none => rfl
   | some d => by_cases hr : (d.name != s.queryType.name) = true <;> simp [hr]
 
-/-- With a `one_of` list of names, `vertex_type_iter` yields one vertex per *element* of the list
-(a name occurring twice yields its vertex type twice), and the engine's filter keeps them all. -/
+/-! History (F-C20-1, fixed): with a `Multiple` candidate `vertex_type_iter` used to yield one vertex
+per *element* of the candidate list, so a name listed twice in a `one_of` argument made its vertex
+type and all rows under it appear twice (`introspect_one_of` then was "one block of rows per
+element", `introspect_one_of_partial` needed `ns.Nodup`, witness `one_of_duplicates_rows`).  The
+repair drops repeated names; the model mirrors it (`dedupNames`). -/
+
+theorem mem_dedupNames (seen ns : List Name) (n : Name) :
+    n ∈ dedupNames seen ns ↔ n ∈ ns ∧ n ∉ seen := by
+  induction ns generalizing seen with
+  | nil => simp [dedupNames]
+  | cons m ms ih =>
+    unfold dedupNames
+    by_cases hm : seen.contains m = true
+    · have hm' : m ∈ seen := by simpa using hm
+      simp only [hm, if_true, ih, List.mem_cons]
+      constructor
+      · rintro ⟨h1, h2⟩; exact ⟨.inr h1, h2⟩
+      · rintro ⟨h1 | h1, h2⟩
+        · subst h1; exact absurd hm' h2
+        · exact ⟨h1, h2⟩
+    · have hm' : m ∉ seen := by simpa using hm
+      simp only [hm, Bool.false_eq_true, if_false, List.mem_cons, ih, not_or]
+      constructor
+      · rintro (h | ⟨h1, h2, h3⟩)
+        · subst h; exact ⟨.inl rfl, hm'⟩
+        · exact ⟨.inr h1, h3⟩
+      · rintro ⟨h1 | h1, h2⟩
+        · exact .inl h1
+        · by_cases hnm : n = m
+          · exact .inl hnm
+          · exact .inr ⟨h1, hnm, h2⟩
+
+theorem nodup_dedupNames (seen ns : List Name) : (dedupNames seen ns).Nodup := by
+  induction ns generalizing seen with
+  | nil => simp [dedupNames]
+  | cons m ms ih =>
+    unfold dedupNames
+    by_cases hm : seen.contains m = true
+    · simp only [hm, if_true]; exact ih seen
+    · simp only [hm, Bool.false_eq_true, if_false, List.nodup_cons]
+      refine ⟨?_, ih _⟩
+      intro hmem
+      have := (mem_dedupNames (m :: seen) ms m).mp hmem
+      exact this.2 (by simp)
+
+/-- With a `one_of` list of names, `vertex_type_iter` yields one vertex per *distinct* name of the
+list, and the engine's filter keeps them all. -/
 theorem introspect_oneOf_eq {doc : Doc} {s : Schema} (h : AcceptedFacts doc s) (ns : List Name) :
     introspect s (.oneOf ns) =
-      .ok ((ns.flatMap fun n => (listed doc s.queryType.name).filter (fun t => t.name == n)).flatMap
-        propertyRowsNoDocs) := by
+      .ok (((dedupNames [] ns).flatMap fun n =>
+        (listed doc s.queryType.name).filter (fun t => t.name == n)).flatMap propertyRowsNoDocs) := by
   unfold introspect
   simp only [startingVertices, String.reduceBEq, Bool.false_eq_true, if_false, if_true, Outcome.bind,
     vertexTypeIter]
   rw [filterMap_eq_flatMap_toList]
   simp only [candidate_toList h]
   rw [← List.map_flatMap]
-  have hfilter : ((ns.flatMap fun n => (listed doc s.queryType.name).filter (fun t => t.name == n)).map
-      Vertex.vertexType).filter (nameIn ns) =
-      (ns.flatMap fun n => (listed doc s.queryType.name).filter (fun t => t.name == n)).map Vertex.vertexType := by
+  have hfilter : (((dedupNames [] ns).flatMap fun n =>
+      (listed doc s.queryType.name).filter (fun t => t.name == n)).map Vertex.vertexType).filter (nameIn ns) =
+      ((dedupNames [] ns).flatMap fun n =>
+        (listed doc s.queryType.name).filter (fun t => t.name == n)).map Vertex.vertexType := by
     rw [List.filter_eq_self]
     intro v hv
     obtain ⟨t, ht, rfl⟩ := List.mem_map.mp hv
     obtain ⟨n, hn, htn⟩ := List.mem_flatMap.mp ht
     have : t.name = n := by simpa using (List.mem_filter.mp htn).2
-    simp [nameIn, this, hn]
+    have hn' : n ∈ ns := ((mem_dedupNames [] ns n).mp hn).1
+    simp [nameIn, this, hn']
   rw [hfilter, collect_map]
   apply collect_ok_of_forall
   intro t ht
@@ -635,5 +682,24 @@ theorem oneOf_blocks_perm (l : List TypeDef) (ns : List Name) (hnd : ns.Nodup) :
       rw [this] at hb
       exact hnd.1 (by simpa using hb)
 
+
+/-- The rows of the `one_of`-filtered query: up to order, those of the listed types whose name is in
+the list — for every list, repeated names included. -/
+theorem introspect_oneOf_perm {doc : Doc} {s : Schema} (h : AcceptedFacts doc s) (ns : List Name) :
+    ∃ rows, introspect s (.oneOf ns) = .ok rows ∧
+      rows.Perm (((listed doc s.queryType.name).filter (fun t => ns.contains t.name)).flatMap
+        propertyRowsNoDocs) := by
+  refine ⟨_, introspect_oneOf_eq h ns, ?_⟩
+  have hcongr : (listed doc s.queryType.name).filter (fun t => ns.contains t.name) =
+      (listed doc s.queryType.name).filter (fun t => (dedupNames [] ns).contains t.name) := by
+    apply List.filter_congr
+    intro t _
+    have := mem_dedupNames [] ns t.name
+    by_cases hm : t.name ∈ ns
+    · simp [hm, this.mpr ⟨hm, by simp⟩]
+    · have : t.name ∉ dedupNames [] ns := fun h' => hm (this.mp h').1
+      simp [hm, this]
+  rw [hcongr]
+  exact (oneOf_blocks_perm _ _ (nodup_dedupNames [] ns)).flatMap_right _
 
 end TF.SchemaDoc
